@@ -126,3 +126,28 @@ Proof. exact ctx_map_refuted_eq. Qed.
 Theorem C08_ctx_map_refuted_amp : exists m, NoDup (map fst m) /\
   ctx_get (bs "x") (decode_ctx (encode_ctx m)) <> assoc (bs "x") m.
 Proof. exact ctx_map_refuted_amp. Qed.
+
+(* the context stored beside the log is sufficient: what Undo decodes does not depend on the configuration
+   in force when it runs (compression switched off, another type, another serializer, another threshold) *)
+Theorem C08_reader_config_independent :
+  forall T parse_time decompress json_parse pb_parse (reader1 reader2 : cfg) ctx info,
+  undo_read T parse_time decompress json_parse pb_parse reader1 ctx info
+  = undo_read T parse_time decompress json_parse pb_parse reader2 ctx info.
+Proof. exact undo_read_config_independent. Qed.
+
+(* ... so the log written under ANY writer configuration is restored under ANY reader configuration *)
+Theorem C08_lossless_any_reader :
+  forall (fmt_time : tm -> bytes) (parse_time : bytes -> option tm)
+         (compress : ckind -> bytes -> bytes) (decompress : ckind -> bytes -> option bytes)
+         (json_print : json -> bytes) (json_parse : bytes -> option json)
+         (pb_print : plog -> bytes) (pb_parse : bytes -> option plog),
+  (forall t, tm_wf t = true -> parse_time (fmt_time t) = Some t) ->
+  (forall t, tm_wf t = true -> valid_utf8 (fmt_time t) = true) ->
+  (forall k x, decompress k (compress k x) = Some x) ->
+  (forall j, json_clean j = true -> json_parse (json_print j) = Some j) ->
+  forall writer reader u,
+  bytes_eqb (cf_ser writer) s_json = true -> clean_text (cf_ctype writer) = true -> log_ok u = true ->
+  exists ctx info, flush go_undo_table fmt_time compress json_print pb_print writer u = Some (ctx, info) /\
+  exists u', undo_read go_undo_table parse_time decompress json_parse pb_parse reader ctx info = Ok u'
+             /\ log_equiv executor_eq u u' = true.
+Proof. exact (fun f p c d jp jq pp pq H1 H2 H3 H4 w _ u => go_lossless_json f p c d jp jq pp pq H1 H2 H3 H4 w u). Qed.
